@@ -10,6 +10,7 @@
 import PySpikeVerif.Spec.Spike
 import PySpikeVerif.Proofs.SpikeLaws
 import PySpikeVerif.Proofs.SpikeScan
+import PySpikeVerif.Proofs.SpikeBound
 
 namespace PySpike.C02
 open PySpike
@@ -122,5 +123,25 @@ theorem full_statement_fails :
       ((spikeProfile t1 t2 ts te m ri).2.1, (spikeProfile t1 t2 ts te m ri).2.2)
         = spikeSpecProfile t1 t2 ts te m ri (spikeProfile t1 t2 ts te m ri).1 :=
   spike_full_statement_fails
+
+/-- the SPIKE-distance *definition* never exceeds 1: for every pair of valid trains, every MRTS,
+    both variants, every time of the recording and both one-sided limits (no exclusion) -/
+theorem definition_le_one (t1 t2 : List Q) (ts te m : Q) (ri : Bool) (h1 : ValidNE t1 ts te)
+    (h2 : ValidNE t2 ts te) (t : Q) (right : Bool)
+    (hl : if right then ts ≤ t else ts < t) (hu : if right then t < te else t ≤ te) :
+    spikeSpec t1 t2 ts te m ri t right ≤ 1 := spikeSpec_le_one t1 t2 ts te m ri h1 h2 t right hl hu
+
+/-- all values of the computed profile are ≤ 1 (outside the class of known finding F9, where the
+    scan is not the definition) -/
+theorem values_le_one_partial (t1 t2 : List Q) (ts te m : Q) (ri : Bool)
+    (h1 : ValidNE t1 ts te) (h2 : ValidNE t2 ts te) (hlt : ts < te)
+    (hn1 : ¬ OneSpikeOnStart t1 ts) (hn2 : ¬ OneSpikeOnStart t2 ts) :
+    ∀ v ∈ (spikeProfile t1 t2 ts te m ri).2.1 ++ (spikeProfile t1 t2 ts te m ri).2.2, v ≤ 1 :=
+  spikeProfile_le_one t1 t2 ts te m ri h1 h2 hlt hn1 hn2
+
+/-- the pooled bound that carries it: two brackets of neighbouring spikes around `t`, nearest-spike
+    distances bounded by the distances to the other train's bracket ends -/
+theorem bound_non_vacuous : spikeSpec [1, 3] [2, 3, 6] 0 6 0 false (5 / 2) true = 5 / 18 ∧
+    spikeSpec [1, 3] [2, 3, 6] 0 6 0 true (5 / 2) true = 1 / 4 := by decide +kernel
 
 end PySpike.C02
